@@ -178,6 +178,10 @@ theorem sanitize_stored (p : NumSpec α) (v w : Val α) (hok : defaultOkB p = tr
   split at hu
   · simp at hu
   rename_i v1 hv1
+  split at hu
+  · simp at hu
+  rename_i v2 hc
+  rename' hu => hu2
   have hcd : ∀ u', corrections p p.default = .ok u' → u' = p.default := by
     intro u' hc
     cases hd : p.default with
@@ -191,6 +195,54 @@ theorem sanitize_stored (p : NumSpec α) (v w : Val α) (hok : defaultOkB p = tr
     | none => rw [hd] at hc; simp [corrections, Val.isFloat] at hc; exact hc.symm
     | int z => rw [hd] at hc; simp [corrections, Val.isFloat] at hc; exact hc.symm
     | str z => rw [hd] at hc; simp [corrections, Val.isFloat] at hc; exact hc.symm
+  -- the second `_sanitize` pass changes nothing: a `None`/NaN reaching it is the default itself
+  have hsecond : ((v2 = .none ∨ v2 = .nan) → v2 = p.default) → u = v2 := by
+    intro hv2
+    cases v2 with
+    | none =>
+      have e := hv2 (Or.inl rfl)
+      simp only [nanToNone, fillDefault] at hu2
+      by_cases hm : p.mandatory = true
+      · simp [hm] at hu2
+      · simp [hm] at hu2; rw [← hu2, ← e]
+    | nan =>
+      have e := hv2 (Or.inr rfl)
+      simp only [nanToNone, fillDefault] at hu2
+      by_cases hm : p.mandatory = true
+      · simp [hm] at hu2
+      · simp [hm] at hu2; rw [← hu2, ← e]
+    | _ => simp [nanToNone, fillDefault] at hu2; exact hu2.symm
+  have hv2 : (v2 = .none ∨ v2 = .nan) → v2 = p.default := by
+    intro hnn
+    cases v with
+    | none =>
+      simp only [nanToNone, fillDefault] at hv1
+      by_cases hm : p.mandatory = true
+      · simp [hm] at hv1
+      · simp [hm] at hv1; subst hv1; exact hcd v2 hc
+    | nan =>
+      simp only [nanToNone, fillDefault] at hv1
+      by_cases hm : p.mandatory = true
+      · simp [hm] at hv1
+      · simp [hm] at hv1; subst hv1; exact hcd v2 hc
+    | str s => simp [nanToNone, fillDefault] at hv1; subst hv1; simp [corrections, Val.isFloat] at hc; subst hc; simp at hnn
+    | int z => simp [nanToNone, fillDefault] at hv1; subst hv1; simp [corrections, Val.isFloat] at hc; subst hc; simp at hnn
+    | flt x =>
+      simp [nanToNone, fillDefault] at hv1; subst hv1
+      rcases corrections_flt p x v2 hc with ⟨e, -⟩ | ⟨e, -⟩
+      · exact e
+      · subst e; simp at hnn
+    | pinf =>
+      simp [nanToNone, fillDefault] at hv1; subst hv1
+      rcases corrections_pinf p v2 hc with ⟨e, -⟩ | ⟨e, -⟩
+      · exact e
+      · subst e; simp at hnn
+    | ninf =>
+      simp [nanToNone, fillDefault] at hv1; subst hv1
+      rcases corrections_ninf p v2 hc with ⟨e, -⟩ | ⟨e, -⟩
+      · exact e
+      · subst e; simp at hnn
+  have hu : corrections p v1 = .ok u := by rw [hsecond hv2]; exact hc
   have hmiss : nanToNone v = .none → Stored p w := by
     intro e
     rw [e] at hv1
